@@ -103,7 +103,16 @@ def gen_program(rng, big=False):
         m.pcs[m.seg] = a
         L.append("\torg %d" % a)
 
-    switch_cpu(rng.choice(["68000", "320c30", "17c42", "320c25"]) if big else rng.choice(cpus + ["8051", "8051"]))
+    if not big and rng.chance(0.25):
+        # no CPU statement at the top: the target comes from -cpu, or is the built-in default (68008)
+        c0 = rng.choice(cpus + ["68000"])
+        L.append("; cpu0=%s %s" % (c0, "default" if c0 == "68000" and rng.chance(0.5) else "option"))
+        m.cpu = c0
+        m.seg = "code"
+        if TARGETS[c0].get("prologue"):
+            L.append(TARGETS[c0]["prologue"].rstrip("\n"))
+    else:
+        switch_cpu(rng.choice(["68000", "320c30", "17c42", "320c25"]) if big else rng.choice(cpus + ["8051", "8051"]))
     org(rng.choice([0, 0, 16, 256, 4096]) if limit() >= 8192 else rng.choice([0, 16]))
     n = rng.randint(1, 60)
     for _ in range(n):
@@ -225,7 +234,9 @@ def gen_program(rng, big=False):
             c = rng.choice(cpus)
             switch_cpu(c)
             lim = limit()
-            org(rng.below(min(lim, 30000)))
+            # the CODE counter survives a CPU switch: half of the time carry on where the previous target stopped
+            if not ("code" in m.pcs and m.pcs["code"] + 64 <= lim and rng.chance(0.5)):
+                org(rng.below(min(lim, 30000)))
         elif k == 10:
             L.append(rng.choice(["", "; comment", "lbl%d:" % len(L), "\tlisting on"]))
     if rng.chance(0.3):
@@ -363,14 +374,18 @@ def wrap(lines, seed):
 
 def check_generated(sim, lines, model, knobs, variant, acc, wrap_seed=None):
     """Run one generated program under one knob setting; returns (violations, code file bytes, nontrivial)."""
+    argv = None
+    for ln in lines:
+        if ln.startswith("; cpu0=") and ln.split()[-1] == "option":
+            argv = ["-q", "-cpu", ln[7:].split()[0], "a.asm"]
     if wrap_seed:
         src, extra, used = wrap(lines, wrap_seed)
         for u in used:
             acc["faults"]["wrapped-in-" + u] = acc["faults"].get("wrapped-in-" + u, 0) + 1
-        sc = scenario(src, knobs, extra_disk=extra)
+        sc = scenario(src, knobs, extra_disk=extra, argv=argv)
     else:
         src = ("\n".join(lines) + "\n").encode()
-        sc = scenario(src, knobs)
+        sc = scenario(src, knobs, argv=argv)
     r, san = sim.run("asl", sc, variant)
     acc["runs"] += 1
     acc["sim_us"] += r.sim_us
@@ -433,6 +448,12 @@ def rebuild_model(lines):
     need_org = True
     for raw in lines:
         ln = raw.strip()
+        if ln.startswith("; cpu0="):
+            m.cpu = ln[7:].split()[0]
+            m.seg = "code"
+            m.pcs.setdefault("code", 0)  # CODE starts at 0 on every target of the table
+            need_org = False
+            continue
         if not ln or ln.startswith(";") or ln.endswith(":") or ln.startswith("listing") or ln.startswith("padding"):
             continue
         op, _, arg = ln.partition(" ")
